@@ -345,14 +345,14 @@ class Gen:
         return '"' + "".join(parts) + '"'
 
     # ------------------------------------------------------------------ patterns
-    def pattern(self, t, env_out, succeed, depth=0, pins=(), star=True):
+    def pattern(self, t, env_out, succeed, depth=0, pins=(), star=True, simple=False):
         """a pattern for values of type t; appends (binder, type) to env_out.  `succeed`: must
         match every value of the type (irrefutable) when True; otherwise it may fail."""
         r = self.rng
         if t in (INT, BIN, STR):
             opts = ["bind", "bind", "placeholder"]
             if not succeed: opts += ["lit", "lit", "lit"]
-            if not succeed and t == INT: opts.append("or")
+            if not succeed and t == INT and not simple: opts.append("or")
             if not succeed and any(pt == t for _, pt in pins): opts.append("pin")
             if depth > 0 or not succeed: opts.append("as")
             k = r.choice(opts)
@@ -381,6 +381,8 @@ class Gen:
         if k < 0.17:
             return "_"
         labels = [l for l, _ in t[2]]
+        if simple and k < 0.55:
+            k = 0.9          # inside a partial pattern's field the parser takes no `(..)`-patterns / `*`
         if all(labels) and len(set(labels)) == len(labels) and t[2] and k < 0.45:
             # partial pattern (named fields)
             sel = r.sample(list(t[2]), r.randint(1, len(t[2])))
@@ -389,7 +391,7 @@ class Gen:
                 if r.random() < 0.5:
                     env_out.append((l, ft)); parts.append(l)
                 else:
-                    parts.append(l + ": " + self.pattern(ft, env_out, succeed, depth + 1, pins, star))
+                    parts.append(l + ": " + self.pattern(ft, env_out, succeed, depth + 1, pins, star, simple=True))
             name = t[1] if (t[1] and r.random() < 0.6) else ""
             self.note("partial_pattern")
             return name + "(" + ", ".join(parts) + ")"
@@ -400,7 +402,7 @@ class Gen:
             return (t[1] if (t[1] and r.random() < 0.5) else "") + "*"
         if t[1] and not t[2]:
             return t[1]
-        parts = [(l + ": " if l else "") + self.pattern(ft, env_out, succeed, depth + 1, pins, star) for l, ft in t[2]]
+        parts = [(l + ": " if l else "") + self.pattern(ft, env_out, succeed, depth + 1, pins, star, simple) for l, ft in t[2]]
         return (t[1] or "") + "[" + ", ".join(parts) + "]"
 
     # ------------------------------------------------------------------ blocks
